@@ -336,11 +336,10 @@ func (n *Nodis) notifyBlockingKey(key string) {
 	cList, ok := n.blockingKeys.Get(key)
 	if ok {
 		cList.ForRange(func(c chan string) bool {
+			verifTrace("bp-notify", c, key, nil, true)
 			select {
 			case c <- key:
-				verifTrace("bp-notify", c, key, nil, true)
 			default:
-				verifTrace("bp-notify", c, key, nil, false)
 			}
 			return true
 		})
